@@ -446,7 +446,10 @@ func (p *Program) verifyFunction(key string) *FuncResult {
 			g.unsupported = append(g.unsupported, fmt.Sprintf("contract-stale: %s: %d of %d point assertions found their anchor", key, g.pointAssertsApplied, len(fc.PointAsserts)))
 		}
 		if fc != nil && g.ghostSetsApplied != len(fc.GhostSets) {
-			g.unsupported = append(g.unsupported, fmt.Sprintf("contract-stale: %s: %d of %d ghost assignments found their anchor", key, g.ghostSetsApplied, len(fc.GhostSets)))
+			// A ghost assignment anchored at a call that is no longer made simply does not happen: the ghost
+			// keeps its previous value (a guard call that was removed leaves its ghost flag unset, so the
+			// obligation it guarded fails instead of going stale).
+			g.ctx.note(fmt.Sprintf("%d of %d ghost assignments of %s found their anchor; the others do not happen", g.ghostSetsApplied, len(fc.GhostSets), key))
 		}
 		// vacuity: the precondition must be satisfiable
 		g.obls = append([]*Obligation{{Name: key + ".requires.sat", Kind: "cover", Fn: key, Desc: "precondition satisfiable", NAssume: nReq, Reach: "true", Cond: "false", ExpectSat: true, ctx: ctx}}, g.obls...)
